@@ -393,7 +393,7 @@ def run_correspondence(res, family, cases, prop, corr_name=None):
             ctx = ctx[:k + 1]
             for _ in range(retry):
                 again = shard_run(os.path.join(BUILD, "hcdrv"), family, ["R%d_%s" % (j, l) for j, l in enumerate(ctx)], group=lambda l: "one-process")
-                old = go[c["id"]]
+                old = go.get(c["id"], "NO-OUTPUT")       # no output at all: the driver process died before this case
                 go[c["id"]] = again.get("R%d_%s" % (k, c["id"]), "NO-OUTPUT")
                 if k > 0:
                     c["context"] = [l.split(" ", 1)[1] for l in ctx[:k]]
